@@ -69,6 +69,8 @@ ShallowEmpty(x) ==
 RECURSIVE DeepEmpty(_)
 DeepEmpty(x) == IF x.kind \in {"Container", "Em", "Strong", "Strikeout", "Code", "Sup"}
                 THEN \A i \in 1..Len(x.c) : DeepEmpty(x.c[i])
+                ELSE IF x.kind \in {"Table", "TableBody"}        \* a table is empty if all its cells are
+                THEN \A i \in 1..Len(x.c) : \A j \in 1..Len(x.c[i].c) : \A k \in 1..Len(x.c[i].c[j].c) : DeepEmpty(x.c[i].c[j].c[k])
                 ELSE ShallowEmpty(x)
 \* insert_child(new, orig, position)
 InsertChild(new, orig, atStart) ==
@@ -170,9 +172,13 @@ ToRender(n, cf) ==
                         Down(row, bsty) == [row EXCEPT !.sty = [@ EXCEPT !.fg = IF @ = <<>> THEN bsty.fg ELSE @,
                                                                           !.bg = IF @ = <<>> THEN bsty.bg ELSE @]]
                         rows == Concat([i \in 1..Len(bodies) |-> [j \in 1..Len(bodies[i].c) |-> Down(bodies[i].c[j], StyOf(bodies[i]))]])
-                    IN IF rows = <<>> THEN <<>>
-                       ELSE LET rm == Remap(rows) IN << [kind |-> "Table", sty |-> sty, c |-> rm, ncols |-> NumCols(rm)] >>
-               [] nm \in {"thead", "tbody"} ->
+                        \* any other child with content (a <caption>) is a block of its own before the table
+                        caps == SelectSeq(cs, LAMBDA x : x.kind # "TableBody" /\ ~ShallowEmpty(x))
+                        capBlocks == [i \in 1..Len(caps) |-> Node("Block", NoSty, << caps[i] >>)]
+                        tab == IF rows = <<>> THEN <<>>
+                               ELSE LET rm == Remap(rows) IN << [kind |-> "Table", sty |-> sty, c |-> rm, ncols |-> NumCols(rm)] >>
+                    IN IF caps = <<>> THEN tab ELSE << Node("Container", NoSty, capBlocks \o tab) >>
+               [] nm \in {"thead", "tbody", "tfoot"} ->
                     NE([kind |-> "TableBody", sty |-> sty, c |-> FixZeroSpans(SelectSeq(cs, LAMBDA x : x.kind = "TableRow"))])
                [] nm = "tr" -> << [kind |-> "TableRow", sty |-> sty, c |-> SelectSeq(cs, LAMBDA x : x.kind = "TableCell")] >>
                [] nm \in {"th", "td"} ->
@@ -184,9 +190,13 @@ ToRender(n, cf) ==
                                     ELSE Min2(ParseInt(n.a.colspan.c, FALSE, 1), 1000)] >>
                [] nm = "blockquote" -> NE(Node("BlockQuote", sty, cs))
                [] nm = "ul" -> NE(Node("Ul", sty, cs))
-               [] nm = "ol" -> NE(Node("Ol", sty, SelectSeq(cs, LAMBDA x : x.kind = "ListItem"))
+               \* stray content directly in <ol> becomes an item of its own, in <dl> it stays where it is;
+               \* what is (shallow-)empty - white space, markers, line breaks - is dropped
+               [] nm = "ol" -> NE(Node("Ol", sty, LET keep == SelectSeq(cs, LAMBDA x : x.kind = "ListItem" \/ ~ShallowEmpty(x)) IN
+                                                   [i \in 1..Len(keep) |-> IF keep[i].kind = "ListItem" THEN keep[i]
+                                                                            ELSE Node("ListItem", NoSty, << keep[i] >>)])
                                   @@ [start |-> IF HasAttr(n, "start") THEN ParseInt(n.a.start.c, TRUE, 1) ELSE 1])
-               [] nm = "dl" -> NE(Node("Dl", sty, SelectSeq(cs, LAMBDA x : x.kind \in {"Dt", "Dd"})))
+               [] nm = "dl" -> NE(Node("Dl", sty, SelectSeq(cs, LAMBDA x : x.kind \in {"Dt", "Dd"} \/ ~ShallowEmpty(x))))
                [] nm = "dt" -> << Node("Dt", sty, cs) >>
                [] nm = "dd" -> << Node("Dd", sty, cs) >>
                [] OTHER -> NE(Node("Container", sty, cs))
